@@ -1,25 +1,36 @@
 P = "github.com/tochemey/goakt/v4/crdt."
+A = "github.com/tochemey/goakt/v4/actor."
+SUB = {"(*" + A + "replicatorActor).publishDelta": A + "vC39_publish"}
 CHECK = {
     "id": "C39",
-    "packages": ["./crdt"],
-    "harness": ["crdt/zz_verif_c39.go", "crdt/zz_verif_c38.go"],
+    "packages": ["./crdt", "./actor"],
+    "harness": ["crdt/zz_verif_c39.go", "crdt/zz_verif_c38.go", "actor/zz_verif_c39.go"],
+    "packages_quick": ["./crdt"],  # the replicator-level entry (./actor: +2..3 min of vdump) runs in the thorough tier only
+    "harness_quick": ["crdt/zz_verif_c39.go", "crdt/zz_verif_c38.go"],
     "entries": [
         {"fn": P + "vC39_gcounter", "cases_quick": {"bUpdates": [1], "part": [0, 1]}, "cases_thorough": {"bUpdates": [2], "part": [0, 1]}},
         {"fn": P + "vC39_pncounter", "cases_quick": {"bUpdates": [1], "part": [0, 1]}, "cases_thorough": {"bUpdates": [2], "part": [0, 1]}},
         {"fn": P + "vC39_mvregister", "cases_quick": {"bUpdates": [1], "part": [0, 1]}, "cases_thorough": {"bUpdates": [2], "part": [0, 1]}},
-        {"fn": P + "vC39_orset", "cases_quick": {"bUpdates": [1], "ops": [1], "part": [0, 1]}, "cases_thorough": {"bUpdates": [1], "ops": [1, 2], "part": [0, 1]}, "opts": {"batch_fresh": True}},
-        {"fn": P + "vC39_orset_fullstate", "cases_quick": {"bUpdates": [1], "ops": [1], "part": [1]}, "cases_thorough": {"bUpdates": [1], "ops": [1, 2], "part": [0, 1]}, "opts": {"batch_fresh": True}},
-        {"fn": P + "vC39_ormap", "cases_quick": {"bUpdates": [1], "ops": [1], "part": [0, 1]}, "cases_thorough": {"bUpdates": [1], "ops": [1, 2], "part": [0, 1]}, "opts": {"batch_fresh": True}},
-        {"fn": P + "vC39_ormap_sets", "cases_quick": {"bUpdates": [1], "ops": [1], "part": [1]}, "cases_thorough": {"bUpdates": [1], "ops": [1, 2], "part": [0, 1]}, "opts": {"batch_fresh": True}},
+        {"fn": P + "vC39_orset", "cases_quick": {"bUpdates": [1], "ops": [1], "part": [0, 1]}, "cases_thorough": {"bUpdates": [1], "ops": [1], "part": [0, 1]}, "opts": {"batch_fresh": True}},
+        {"fn": P + "vC39_orset", "tiers": ("thorough",), "cases": {"bUpdates": [1], "ops": [2], "part": [1]}, "opts": {"batch_fresh": True}},
+        {"fn": P + "vC39_orset_fullstate", "cases_quick": {"bUpdates": [1], "ops": [1], "part": [1]}, "cases_thorough": {"bUpdates": [1], "ops": [1], "part": [0, 1]}, "opts": {"batch_fresh": True}},
+        {"fn": P + "vC39_orset_fullstate", "tiers": ("thorough",), "cases": {"bUpdates": [1], "ops": [2], "part": [1]}, "opts": {"batch_fresh": True}},
+        {"fn": P + "vC39_ormap", "cases_quick": {"bUpdates": [1], "ops": [1], "part": [0, 1]}, "cases_thorough": {"bUpdates": [1], "ops": [1], "part": [0, 1]}, "opts": {"batch_fresh": True}},
+        {"fn": P + "vC39_ormap", "tiers": ("thorough",), "cases": {"bUpdates": [1], "ops": [2], "part": [1]}, "opts": {"batch_fresh": True}},
+        {"fn": P + "vC39_ormap_sets", "cases_quick": {"bUpdates": [1], "ops": [1], "part": [1]}, "cases_thorough": {"bUpdates": [1], "ops": [1], "part": [0, 1]}, "opts": {"batch_fresh": True}},
+        {"fn": P + "vC39_ormap_sets", "tiers": ("thorough",), "cases": {"bUpdates": [1], "ops": [2], "part": [1]}, "opts": {"batch_fresh": True}},
+        {"fn": A + "vC39_replicator", "replay": "model-only", "opts": {"substitute": SUB}, "cover_optional": ("two-increments-in-one-update",),
+         "tiers": ("thorough",), "cases": {"order": list(range(36)), "twice": [0, 1]}},
     ],
+    "stop": list(SUB.keys()) + ["(*" + A + "replicatorActor).coordinatedWrite", "(*" + A + "ReceiveContext).Response", "(*" + A + "ReceiveContext).Tell", "(*" + A + "PID).IsRunning"],
     "opts": {"unwind": 10, "feas_from_iter": 100, "map_range": "per_entry", "map_dedup": True},
     "timeout_ms": {"quick": 400000, "thorough": 3000000},
     "explanation": "Real code executed symbolically: Delta, ResetDelta, Merge and the mutators of crdt.GCounter, PNCounter, MVRegister, ORSet and ORMap (values: GCounter). Two originators (nodes a, b) start empty. An update = 0..2 local operations (solver's choice, any amounts / values, elements and keys from a 2-element universe) followed by the replicator's extraction step (delta := Delta(); ResetDelta(); publish if non-nil). a performs two updates, b one (quick) or two (thorough); between their updates each originator may (solver's choice) merge the other's first delta. "
                    "part 0: a third replica applies the published deltas in ANY order with one duplicate (nd+1 deliveries each of an arbitrary delta, every delta at least once), with the store rule of replicatorActor.handleDelta (key absent: the delta itself becomes the value; otherwise current.Merge(delta)); asserted: its state (value and causal metadata) equals full(a) merged with full(b). part 1: each originator applies the other's deltas in order; both must equal the same merge. "
                    "vC39_orset_fullstate ships the full state after each update instead of the delta (handleFullState / anti-entropy). vC39_ormap_sets restricts ORMap updates to Set (no Remove). "
-                   "KERNEL: the replicator's store logic (actor/replicator.go handleUpdate lines 396-399, handleDelta / handleFullState 567-580 / 686-698) is transcribed in the harness (3 lines each); the handlers themselves, codec and topic transport are not executed here (C40 covers the codec, C41 the handlers). "
+                   "Replicator level: the crdt-package entries transcribe the store logic (actor/replicator.go handleUpdate lines 396-399, handleDelta 567-580, handleFullState 686-698; 3 lines each) in the harness. vC39_replicator (thorough tier, package actor) runs the REAL replicatorActor.handleUpdate and handleDelta on three replicatorActor values (GCounter key, crdt.Update with a Modify of one or two increments of arbitrary amounts): a's two deltas and b's delta, captured where handleUpdate hands them to publishDelta (substituted by a recorder), are delivered to the third replicator in each of the 36 orders of 4 deliveries containing all three (case split per job), asserted equal to the merge of the originators' stores; a replicator ignores its own deltas, originators converge, a tombstoned key refuses deltas. Codec and topic transport are not executed (C40 covers the codec). "
                    "Result on the unchanged tree: GCounter, PNCounter, MVRegister, ORMap-without-Remove and ORSet full-state exchange converge; ORSet deltas and ORMap with Remove do not (known findings C39-1*, C39-2*).",
-    "bounds": {"originators": 2, "updates": "a: 2, b: 1 (quick) / 2 (thorough; ORSet/ORMap: 1)", "operations per update": "0..2 (counters, MVRegister); ORSet/ORMap: 0..1 quick, 0..2 thorough", "deliveries at the third replica": "number of deltas + 1 (any order, one duplicate)",
+    "bounds": {"originators": 2, "updates": "a: 2, b: 1 (quick) / 2 (thorough; ORSet/ORMap: 1)", "operations per update": "0..2 (counters, MVRegister); ORSet/ORMap: 0..1, and 0..2 for the in-order exchange between the originators (thorough)", "deliveries at the third replica": "number of deltas + 1 (any order, one duplicate)",
                "amounts": "< 2^60 each (no uint64 wrap of a per-node count)", "elements / keys": 2, "case split": "bUpdates, ops per update and the assertion group (part) are fixed per job; everything else symbolic"},
     "assumptions": ["map iteration order is insertion order (not Go's randomisation); dot lists / entries compared as sets",
                     "per-node counts do not wrap (amounts < 2^60)",
